@@ -65,6 +65,24 @@ func observe(s sets.Set[int], m mask) (sig, msg string) {
 	if fmt.Sprint(rg) != fmt.Sprint(want) && !(len(rg) == 0 && len(want) == 0) {
 		return "Range", fmt.Sprintf("Range visits %v, members %v", rg, want)
 	}
+	// observers called from inside the Range callback (read-only re-entrancy)
+	{
+		var outer []int
+		bad := ""
+		s.Range(func(v int) bool {
+			outer = append(outer, v)
+			in := 0
+			s.Range(func(int) bool { in++; return true })
+			if bad == "" && (s.Len() != len(want) || !s.Has(v) || len(s.Slice()) != len(want) || in != len(want)) {
+				bad = fmt.Sprintf("inside the callback for %d: Len %d, Has %v, Slice %v, nested Range visits %d", v, s.Len(), s.Has(v), s.Slice(), in)
+			}
+			return true
+		})
+		sort.Ints(outer)
+		if bad != "" || (fmt.Sprint(outer) != fmt.Sprint(want) && !(len(outer) == 0 && len(want) == 0)) {
+			return "Range:nested-observers", fmt.Sprintf("Range whose callback calls other observers visits %v (%s), members %v", outer, bad, want)
+		}
+	}
 	for stop := 1; stop <= len(want)+1; stop++ {
 		n := 0
 		s.Range(func(int) bool { n++; return n < stop })
